@@ -41,6 +41,7 @@ pub fn import<R: std::io::Read>(
             },
         );
         txn.effective_date(entry.effective_date)
+            .code_option(fragment.code)
             .dest_account_option(fragment.account);
         if !fragment.cleared {
             txn.clear_state(syntax::ClearState::Pending);
